@@ -301,12 +301,39 @@ static inline void ctx_{prefix}_drop({ty} *self) {{
 
     // Create wrappers to group objects
 
+    // Function names that more than one trait of the same group defines. Their wrappers would
+    // otherwise share one name, and only the first trait's function would be reachable.
+    let mut group_func_traits: HashMap<(String, String), HashMap<String, HashSet<String>>> =
+        HashMap::new();
+
+    for (t, cont, second_half, _, _, funcs) in &group_vtbls {
+        let container_ty = format!("struct {}Container_{}", cont, second_half);
+        let vtbl = Vtable::new(t.to_string(), funcs, &container_ty)?;
+        let entry = group_func_traits
+            .entry((cont.clone(), second_half.clone()))
+            .or_default();
+        for f in vtbl.functions {
+            entry.entry(f.name).or_default().insert(t.clone());
+        }
+    }
+
     for (t, cont, second_half, inner, context, funcs) in group_vtbls {
         let this_ty = format!("struct {}_{}", cont, second_half);
         let container_ty = format!("struct {}Container_{}", cont, second_half);
 
         fwd_declarations += &format!("{};\n", this_ty);
         fwd_declarations += &format!("{};\n", container_ty);
+
+        let clashing_funcs = group_func_traits
+            .get(&(cont.clone(), second_half.clone()))
+            .map(|m| {
+                m.iter()
+                    .filter(|(_, traits)| traits.len() > 1)
+                    .map(|(name, _)| name.clone())
+                    .collect::<HashSet<_>>()
+            })
+            .unwrap_or_default();
+        let trait_prefix = format!("{}_{}", cont, t);
 
         let vtbl = Vtable::new(t, &funcs, &container_ty)?;
 
@@ -337,13 +364,42 @@ static inline void ctx_{prefix}_drop({ty} *self) {{
             config,
         );
 
+        all_wrappers += &wrappers;
+
+        // Additionally expose clashing functions under a name that includes the trait.
+        if vtbl.functions.iter().any(|f| clashing_funcs.contains(&f.name)) {
+            let clashing_vtbl = Vtable {
+                name: vtbl.name.clone(),
+                functions: vtbl
+                    .functions
+                    .iter()
+                    .filter(|f| clashing_funcs.contains(&f.name))
+                    .cloned()
+                    .collect(),
+            };
+
+            all_wrappers += &clashing_vtbl.create_wrappers_c(
+                ("container", &format!("vtbl_{}", vtbl.name.to_lowercase())),
+                ("", &|f| {
+                    if f.name == "drop" {
+                        Some(&cont)
+                    } else {
+                        Some(&trait_prefix)
+                    }
+                }),
+                (&container_ty, inner, container_wrappers.is_some()),
+                (&context, ctx, context_wrappers.is_some()),
+                (&this_ty, &[]),
+                &mut generated_funcs,
+                config,
+            );
+        }
+
         if config.default_context.as_deref() == Some(ctx)
             && config.default_container.as_deref() == Some(inner)
         {
             shortened_typedefs.push((this_ty, cont.to_string()));
         }
-
-        all_wrappers += &wrappers;
     }
 
     let mut header = header.to_string();
